@@ -2,6 +2,7 @@ import MgpuModel.Util
 import MgpuModel.C01_Emu
 import MgpuModel.C01_Kernels
 import MgpuModel.C01_Kernels2
+import MgpuModel.C01_Kernels3
 /-! # C01 — kernel-argument marshalling of the driver
 
 Model of `amd/driver/kernel.go`: `createAQLPacket`, `prepareLocalMemory` and the
@@ -117,6 +118,7 @@ def handle (line : String) : String :=
     | _, _, _, _, _, _ => "bad"
   | "c01" :: "emu" :: _ => Emu.handle line
   | "c01" :: "copycode" :: _ => Emu.handle line
+  | ["c01", "ttcode"] => Util.bytesHex Emu.transposeKernelCode
   | ["c01", "kcode", "relufwd"] => Util.bytesHex Emu.reluFwdKernelCode
   | "c01" :: "kcode" :: _ => Emu.handleK line
   | "c01" :: "d2dplan" :: _ => Emu.handleK line
